@@ -92,25 +92,32 @@ def check_omp(ctx):
         ctx.count(("omp-site", m["name"]))
     if not models:
         raise tlcmod.MachineryError("no OpenMP site found in %s/c: extraction broken" % REPO)
-    runs = [(2, models)]
+    runs = [(2, 4, models)]
     if not ctx.quick:
         small = [m for m in models if len(m["iters"]) <= 8]
-        runs.append((3, small))
+        runs.append((3, 4, small))     # three threads
+        runs.append((2, 8, small))     # two threads, iterations claimed in any order
     # action coverage on the smallest site (coverage statistics are expensive on the big ones)
     smallest = min(models, key=lambda m: sum(len(a) for a in m["acc"]))
     cfgc = OMP_CFG % (2, 4, "\n".join("INVARIANT " + i for i in OMP_INVS))
     rc = ctx.tlc("MC_KernelsOMP", cfg_text=cfgc, extra_files={"MC_KernelsOMP.tla": mc_sites([smallest])},
                  requirement=False, workers=2, timeout=300, coverage=True)
     ctx.extra["omp_action_coverage"] = {k: v[1] for k, v in rc.coverage.items()}
-    if any(rc.coverage.get(a, (0, 0))[1] == 0 for a in ("Claim", "Step")):
+    if not rc.violated and any(rc.coverage.get(a, (0, 0))[1] == 0 for a in ("Claim", "Step")):
         raise tlcmod.MachineryError("KernelsOMP: an action never fired: %r" % (rc.coverage,))
-    for nthreads, ms in runs:
-        cfg = OMP_CFG % (nthreads, 4, "\n".join("INVARIANT " + i for i in OMP_INVS))
+    for nthreads, anyorder, ms in runs:
+        cfg = OMP_CFG % (nthreads, anyorder, "\n".join("INVARIANT " + i for i in OMP_INVS))
         res = ctx.tlc("MC_KernelsOMP", cfg_text=cfg, extra_files={"MC_KernelsOMP.tla": mc_sites(ms)},
                       requirement=False, workers=6, timeout=900)
         if res.violated:
             name = res.violated
-            det = omp_violation_detail(ms, name, res.trace)
+            trace = res.trace
+            if not trace:
+                iv = initial_state_violations(res.stdout)
+                if iv:
+                    name, st0 = iv[0]
+                    trace = [("Init", st0)]
+            det = omp_violation_detail(ms, name, trace)
             # an interleaving counterexample for the same site (operational invariants only)
             si = det.get("site")
             if si and name in ("NoConflictingIterations",):
@@ -228,13 +235,14 @@ def launch_workers(ctx, cases, keys, tmp):
     maxpar = 3
     running = []
 
-    def start(job):
+    def start(job, start_after=-1, attempt=0, crashed=None):
         (build, threads), reps = job
         out = os.path.join(tmp, "out_%s_%d.pkl" % (build, threads))
-        err = os.path.join(tmp, "err_%s_%d.txt" % (build, threads))
+        err = os.path.join(tmp, "err_%s_%d_%d.txt" % (build, threads, attempt))
         env = dict(os.environ)
         env.update(VERIF_EXT_VARIANT=build, OMP_NUM_THREADS=str(threads), OMP_WAIT_POLICY="passive",
-                   GOMP_SPINCOUNT="0", OMP_DYNAMIC="false", VERIF_REPO=REPO, PYTHONPATH=VERIF)
+                   GOMP_SPINCOUNT="0", OMP_DYNAMIC="false", VERIF_REPO=REPO, PYTHONPATH=VERIF,
+                   C13_START_AFTER=str(start_after))
         if build == "asan":
             rt = asan_runtime()
             if rt is None:
@@ -244,8 +252,10 @@ def launch_workers(ctx, cases, keys, tmp):
             env["UBSAN_OPTIONS"] = "print_stacktrace=1:halt_on_error=0"
         p = subprocess.Popen([sys.executable, "-m", "harness.c13_worker", cases_path, out, str(max(reps))],
                              cwd=VERIF, env=env, stdout=subprocess.DEVNULL, stderr=open(err, "w"))
-        return dict(p=p, job=job, out=out, err=err, t0=time.time())
+        return dict(p=p, job=job, out=out, err=err, t0=time.time(), attempt=attempt, crashed=crashed or [],
+                    stderr_all="")
 
+    last_id = max(c["id"] for c in cases)
     while pending or running:
         while pending and len(running) < maxpar:
             running.append(start(pending.pop(0)))
@@ -259,13 +269,64 @@ def launch_workers(ctx, cases, keys, tmp):
             running.remove(r)
             with open(r["err"]) as f:
                 errtxt = f.read()
-            res = None
+            r["stderr_all"] += errtxt
+            if "C13DONE" not in errtxt:
+                ids = re.findall(r"C13CASE (\d+) (\d+)", errtxt)
+                if not ids:
+                    raise tlcmod.MachineryError("C13 worker %s failed before the first case rc=%s\n%s"
+                                                % (r["job"][0], rc, errtxt[-1500:]))
+                cid = int(ids[-1][0])
+                r["crashed"].append(dict(id=cid, rc=rc, log=errtxt[-2500:]))
+                if cid < last_id and r["attempt"] < 12:
+                    nr = start(r["job"], start_after=cid, attempt=r["attempt"] + 1, crashed=r["crashed"])
+                    nr["stderr_all"] = r["stderr_all"]
+                    running.append(nr)
+                    continue
+            runs, header = [], None
             if os.path.exists(r["out"]):
                 with open(r["out"], "rb") as f:
-                    res = pickle.load(f)
-            results[r["job"][0]] = dict(rc=rc, stderr=errtxt, res=res)
+                    while True:
+                        try:
+                            o = pickle.load(f)
+                        except EOFError:
+                            break
+                        except Exception:
+                            break
+                        if o.get("header"):
+                            header = o
+                        else:
+                            runs.append(o)
+            results[r["job"][0]] = dict(rc=rc, stderr=r["stderr_all"], crashed=r["crashed"],
+                                        res=dict(header or {}, runs=runs) if header else None)
         time.sleep(0.05)
     return results
+
+
+def record_subprocess(ctx, seed):
+    """Drive the Python layer (recording proxy) in a sub-process: a kernel that corrupts memory
+    must not take the harness down.  A crash here is a violation (the calls are the Python layer's own)."""
+    tmp = tempfile.mkdtemp(prefix="c13rec_", dir=os.path.join(VERIF, ".run"))
+    try:
+        out = os.path.join(tmp, "rec.pkl")
+        env = dict(os.environ)
+        env.update(VERIF_EXT_VARIANT="omp", OMP_NUM_THREADS="4", OMP_WAIT_POLICY="passive", GOMP_SPINCOUNT="0",
+                   VERIF_REPO=REPO, PYTHONPATH=VERIF)
+        p = subprocess.run([sys.executable, "-m", "harness.c13_worker", "--record", str(seed), ctx.tier, out],
+                           cwd=VERIF, env=env, stdout=subprocess.DEVNULL, stderr=subprocess.PIPE, timeout=1500)
+        err = p.stderr.decode(errors="replace")
+        if p.returncode != 0 or not os.path.exists(out):
+            if p.returncode < 0 or p.returncode in (134, 139) or "corrupted" in err or "free()" in err or "malloc" in err:
+                ctx.violation("kernels:ImplNoCrash:python-layer-session",
+                              "the extension crashed (rc=%s) while the Python layer was driven over the C13 crystals"
+                              % p.returncode, dict(returncode=p.returncode, stderr=err[-3000:], seed=seed, tier=ctx.tier,
+                                                   driver="harness.c13_kernels.drive"))
+                return None
+            raise tlcmod.MachineryError("C13 recording failed rc=%s\n%s" % (p.returncode, err[-2000:]))
+        with open(out, "rb") as f:
+            d = pickle.load(f)
+        return d["calls"], d["notes"]
+    finally:
+        shutil.rmtree(tmp, ignore_errors=True)
 
 
 def sanitizer_findings(stderr):
@@ -287,17 +348,25 @@ def check_kernels(ctx, prog):
     quick = ctx.quick
     threads = [1, 2, 7] if quick else [1, 2, 3, 4, 7, 8, 16]
     reps = [1, 2] if quick else [1, 2, 3, 4, 5]
-    with_asan = (not quick) or os.environ.get("C13_ASAN") == "1"
+    with_asan = os.environ.get("C13_ASAN", "1") != "0"
     keys = plan(ctx, threads, reps, True, with_asan)
     ctx.extra["run_matrix"] = len(keys)
 
     t0 = time.time()
-    calls, notes = K.record(ctx.seed, ctx.tier)
+    calls, notes = [], {}
+    for sd in ([ctx.seed] if quick else [ctx.seed, ctx.seed + 1, ctx.seed + 2]):
+        rec = record_subprocess(ctx, sd)
+        if rec is None:
+            return None
+        for c in rec[0]:
+            c["tag"] = "%s#%d" % (c["tag"], sd)
+        calls += rec[0]
+        notes.update(rec[1])
     ctx.extra["record_s"] = round(time.time() - t0, 1)
     ctx.extra["recorded_calls"] = len(calls)
     ctx.extra["configurations"] = notes
     nprng = np.random.default_rng(ctx.seed + 1000)
-    cases = K.select_cases(calls, nprng, per_kernel=5 if quick else 16, per_kernel_random=3 if quick else 8)
+    cases = K.select_cases(calls, nprng, per_kernel=7 if quick else 40, per_kernel_random=4 if quick else 24)
     ctx.extra["cases"] = len(cases)
 
     # ---- glue table against the recorded dtypes / ranks (static, from the AST) ----
@@ -341,8 +410,10 @@ def check_kernels(ctx, prog):
         a = [np.array(x, copy=True) if isinstance(x, np.ndarray) else x for x in c["args"]]
         try:
             refs[c["id"]] = R.REF[c["kernel"]](a, wfn) if c["kernel"] == "tetrahedron_method_dos" else R.REF[c["kernel"]](a)
-        except Exception as e:  # a reference that cannot be evaluated is a machinery problem
-            raise tlcmod.MachineryError("reference of %s failed: %r" % (c["kernel"], e))
+        except Exception as e:
+            # the recorded arguments are not a well-formed input of this kernel (they are produced by
+            # the Python layer from the results of earlier kernel calls): logged as a maximal deviation
+            refs[c["id"]] = dict(out={}, ret=None, undefined="reference raised %r" % (e,))
     ctx.extra["reference_s"] = round(time.time() - t0, 1)
 
     def err_vs(out, ret, ref):
@@ -366,13 +437,17 @@ def check_kernels(ctx, prog):
     groups = {}
     observed_err = {}
     san = {}
+    crashes = {}
     for (build, th), w in results.items():
         finds = sanitizer_findings(w["stderr"])
         for cid, txt in finds:
             san.setdefault((build, th, cid), txt)
+        # a worker that died in a case (sanitizer abort, segfault, heap corruption): the run is logged
+        # as observed with a sanitizer report / a crash; the worker was restarted after that case
+        for cr in w.get("crashed", []):
+            crashes[(build, th, cr["id"])] = cr
         if w["res"] is None:
-            # the process died: a sanitizer abort is attributed to its case, anything else is machinery
-            if not finds:
+            if not finds and not w.get("crashed"):
                 raise tlcmod.MachineryError("C13 worker %s/%d failed rc=%s\n%s" % (build, th, w["rc"], w["stderr"][-1500:]))
             continue
         if build == "omp" and not w["res"]["use_openmp"]:
@@ -389,7 +464,7 @@ def check_kernels(ctx, prog):
             ref = refs[c["id"]]
             if ref.get("ambiguous"):
                 continue
-            e = err_vs(f["out"], f["ret"], ref) if not f["err"] else float("inf")
+            e = err_vs(f["out"], f["ret"], ref) if not (f["err"] or ref.get("undefined")) else float("inf")
             observed_err[c["kernel"]] = max(observed_err.get(c["kernel"], 0.0), e if math.isfinite(e) else 1.0)
             xb = 0.0
             so = serial_out.get(r["id"])
@@ -404,15 +479,21 @@ def check_kernels(ctx, prog):
                                   flagok=bool(r.get("flagok", True)),
                                   sanitizer=(build, th, c["id"]) in san))
         ctx.traces += len(w["res"]["runs"])
-    # a sanitizer abort leaves no result: log the run as observed with a report
-    for (build, th, cid), txt in san.items():
-        if cid is None or cid not in [c["id"] for c in cases]:
+    # a crashed run leaves no result record: log it as observed (all repetitions), crashed
+    ids = set(c["id"] for c in cases)
+    for (build, th, cid), cr in crashes.items():
+        if cid not in ids:
             continue
         c = cases[cid]
+        is_san = (build, th, cid) in san
         g = groups.setdefault(cid, dict(kernel=c["kernel"], case=cid, variant=c["variant"], tag=c["tag"], runs=[]))
-        if not any(r["build"] == build and r["threads"] == th for r in g["runs"]):
-            g["runs"].append(dict(build=build, threads=th, rep=1, digest="aborted", referr=0, xbuild=0, guards=True,
-                                  constok=True, raised=False, flagok=True, sanitizer=True))
+        have = set((r["build"], r["threads"], r["rep"]) for r in g["runs"])
+        for k in keys:
+            if k["build"] == build and k["threads"] == th and (build, th, k["rep"]) not in have:
+                g["runs"].append(dict(build=build, threads=th, rep=k["rep"], digest="crashed", referr=0, xbuild=0, guards=True,
+                                      constok=True, raised=not is_san, flagok=True, sanitizer=is_san))
+        if not is_san:
+            san[(build, th, cid)] = "process died rc=%s\n%s" % (cr["rc"], cr["log"][-1500:])
     for c in cases:
         ctx.count((c["kernel"], c["tag"], c["variant"], tuple(str(m) for m in c["meta"])))
     ctx.extra["observed_max_relerr"] = {k: float("%.3g" % v) for k, v in observed_err.items()}
@@ -443,6 +524,8 @@ def check_kernels(ctx, prog):
                        shapes=[m for m in c["meta"]], scalars=[K.scalar_sig(x) for x in c["args"]],
                        worst_runs=sorted(({k: v for k, v in dict(r).items()} for r in grp["runs"]),
                                          key=lambda r: -(r["referr"] + r["xbuild"]))[:4])
+            if refs[cid].get("undefined"):
+                det["reference"] = refs[cid]["undefined"]
             det["arguments"] = [x if not isinstance(x, np.ndarray) else (x if x.size <= 400 else "array%s" % (x.shape,))
                                 for x in c["args"]]
             for (b, th, ci), txt in san.items():
@@ -497,14 +580,130 @@ def _to_tla(v):
 to_tla = _to_tla  # noqa: F811  (records containing sets of records)
 
 
+
+# --------------------------------------------------------------------------
+# C. exact integer contracts computed by TLC (spec/KernelExact.tla)
+# --------------------------------------------------------------------------
+EXACT_CONFIGS = [
+    dict(P=1, N1=2, N2=1, A=1, B=1), dict(P=1, N1=3, N2=1, A=2, B=1), dict(P=1, N1=4, N2=1, A=3, B=2),
+    dict(P=1, N1=2, N2=2, A=3, B=1), dict(P=1, N1=3, N2=3, A=2, B=4), dict(P=1, N1=2, N2=3, A=5, B=1),
+    dict(P=2, N1=2, N2=1, A=3, B=1), dict(P=2, N1=3, N2=1, A=5, B=2), dict(P=2, N1=2, N2=2, A=3, B=5),
+    dict(P=2, N1=4, N2=1, A=3, B=1), dict(P=2, N1=3, N2=2, A=5, B=3),
+]
+
+EXACT_CFG = """SPECIFICATION Spec
+CONSTANTS
+ Configs <- MCConfigs
+ Events <- MCEvents
+CHECK_DEADLOCK FALSE
+INVARIANT InvScenario
+INVARIANT ImplTransposeCompact
+INVARIANT ImplDistribute
+INVARIANT ImplKnownKernel
+"""
+
+
+def check_exact(ctx):
+    import phonopy._phonopy as phonoc
+    from harness.tla_values import parse_dump
+
+    def mc(events):
+        return ("---- MODULE MC_KernelExact ----\nEXTENDS KernelExact\nMCConfigs == {%s}\nMCEvents == {%s}\n====\n"
+                % (", ".join(to_tla(c) for c in EXACT_CONFIGS), ",\n".join(to_tla(e) for e in events)))
+
+    # spec -> code: TLC computes the inputs (and, for itself, the expected outputs)
+    res = ctx.tlc("MC_KernelExact", cfg_text=EXACT_CFG, extra_files={"MC_KernelExact.tla": mc([])}, dump=True, keep=True,
+                  workers=4, what="KernelExact scenario")
+    try:
+        states = [s for s in parse_dump(res.dump_path) if s.get("phase") == "plan"]
+    finally:
+        tlcmod.cleanup(res)
+    if len(states) != len(EXACT_CONFIGS):
+        raise tlcmod.MachineryError("KernelExact: %d plan states for %d configurations" % (len(states), len(EXACT_CONFIGS)))
+    events = []
+    for st in states:
+        c = dict(st["cfg"])
+        inp = st["inp"]
+        n = c["P"] * c["N1"] * c["N2"]
+        fc = np.array(inp["fc"], dtype="double").reshape(c["P"], n, 3, 3).copy()
+        args = [fc, np.array(inp["perms"], dtype="intc", order="C"), np.array(inp["s2pp"], dtype="intc"),
+                np.array(inp["p2s"], dtype="intc"), np.array(inp["nsym"], dtype="intc")]
+        try:
+            phonoc.transpose_compact_fc(*args)
+            out = [int(round(x)) for x in fc.reshape(-1)]
+            if not np.array_equal(fc.reshape(-1), np.array(out, dtype="double")):
+                out = [-999999]
+        except Exception as e:
+            out = [-999998]
+            ctx.extra.setdefault("exact_exceptions", []).append(repr(e))
+        events.append(dict(kernel="transpose_compact_fc", cfg=c, out=out))
+        ctx.count(("exact", "transpose_compact_fc", tuple(sorted(c.items()))))
+        d = inp.get("dist")
+        if d:
+            fc2 = np.array(d["fc"], dtype="double").reshape(n, n, 3, 3).copy()
+            try:
+                phonoc.distribute_fc2(fc2, np.arange(n, dtype="intc"), np.arange(n, dtype="intc"),
+                                      np.array(d["rot"], dtype="double", order="C"),
+                                      np.array(d["opperm"], dtype="intc", order="C"),
+                                      np.full(n, d["done"], dtype="intc"), np.array(d["mapsyms"], dtype="intc"))
+                out = [int(round(x)) for x in fc2.reshape(-1)]
+                if not np.array_equal(fc2.reshape(-1), np.array(out, dtype="double")):
+                    out = [-999999]
+            except Exception as e:
+                out = [-999998]
+                ctx.extra.setdefault("exact_exceptions", []).append(repr(e))
+            events.append(dict(kernel="distribute_fc2", cfg=c, out=out))
+            ctx.count(("exact", "distribute_fc2", tuple(sorted(c.items()))))
+    ctx.traces += len(events)
+    ctx.extra["exact_events"] = len(events)
+    # code -> spec: TLC compares the kernels' outputs with the definition
+    res = ctx.tlc("MC_KernelExact", cfg_text=EXACT_CFG, extra_files={"MC_KernelExact.tla": mc(events)}, requirement=False,
+                  extra_args=("-continue",), workers=4)
+    seen = set()
+    for name, st in initial_state_violations(res.stdout):
+        e = st.get("ev") or {}
+        kern = e.get("kernel", "?") if isinstance(e, dict) else "?"
+        key = "exact:%s:%s" % (name, kern)
+        if key in seen:
+            continue
+        seen.add(key)
+        det = dict(invariant=name, kernel=kern)
+        if isinstance(e, dict) and "cfg" in e:
+            c = dict(e["cfg"])
+            det["scenario"] = c
+            det["kernel_output"] = list(e.get("out", []))[:200]
+            for stp in states:
+                if dict(stp["cfg"]) == c:
+                    det["inputs"] = {k: v for k, v in stp["inp"].items() if k not in ("dist",)}
+                    if kern == "distribute_fc2":
+                        det["inputs"] = dict(stp["inp"]["dist"])
+        ctx.violation(key, "kernel %s differs from the exact value TLC computes from the definition (%s)" % (kern, name), det)
+
+
 # --------------------------------------------------------------------------
 def run(ctx):
     ctx.rule = ("race model: one case per `omp parallel for` site of /repo/c (regenerated), all interleavings of 2 "
                 "(thorough: also 3) threads; kernels: one case per (kernel, crystal configuration, argument shapes/"
                 "dtypes/flags, recorded|randomised data), each run on every (build, OMP_NUM_THREADS, repetition) of "
                 "the matrix TLC enumerates; non-trivial = distinct case keys")
+    want = None
+    if ctx.replay_path:
+        # re-run the recorded failing class: same seed and tier, only that class is reported
+        import json
+
+        with open(ctx.replay_path) as f:
+            rp = json.load(f)
+        want = rp.get("key")
+        ctx.seed = int(rp.get("seed", ctx.seed))
+        ctx.tier = rp.get("tier", ctx.tier)
     models, prog = check_omp(ctx)
-    check_kernels(ctx, prog)
+    ctx.extra["omp_exhaustive_within_bounds"] = True
+    if not (want and want.startswith("omp:")):
+        check_exact(ctx)
+        check_kernels(ctx, prog)
+    if want:
+        ctx.violations = [v for v in ctx.violations if v["key"] == want]
+        print("replay of %s: %s" % (want, "reproduced" if ctx.violations else "not reproduced"))
     ctx.assumptions += [
         "race model: inner data values are abstract; integer index arithmetic is concrete on one small scenario per site",
         "memory safety is monitored (guard zones; ASan/UBSan build in the thorough tier) on the replayed inputs, not proved",
